@@ -253,28 +253,45 @@ pub fn run_modes(base: u64, cfg: &Cfg, calls: &[Value], others: &[(Cfg, Vec<Valu
         let _ = exec::run_instance(base + 7, oc, ocalls, &opts);
     }
     cmp("same-thread-again", Some(exec::run_instance(base + 1, cfg, calls, &opts)));
-    // (i-bis) same thread again, after a "sibling" muxer of the SAME configuration whose first video frame differs
-    // in one byte (every byte position in turn: a changed parameter set, a changed slice): nothing a sibling saw
-    // may leak into this muxer
+    // (i-bis) same thread again, after "sibling" muxers of the SAME configuration whose first video frame differs in
+    // one byte (a changed parameter set, a changed slice): nothing a sibling saw may leak into this muxer.  Hidden
+    // state keyed on one part X of the input and holding something derived from another part Y needs the sequence
+    // [X' , .] [X, Y'] [X, Y] to show, so every ordered pair of byte positions (first 24 bytes) is run before the
+    // instance is repeated.
     if let Some(fi) = calls.iter().position(|c| matches!(gs(c, "op"), "wv" | "wvd" | "ev")) {
-        let n = exec::bytes_of(&calls[fi]["data"]).len().min(48);
-        let mut worst: Option<RunResult> = None;
-        for p in 0..n {
+        let orig = exec::bytes_of(&calls[fi]["data"]);
+        let n = orig.len().min(24);
+        let sib = |p: usize| -> Vec<Value> {
             let mut k2 = calls.to_vec();
-            let mut d = exec::bytes_of(&k2[fi]["data"]);
+            let mut d = orig.clone();
             d[p] ^= 0x10;
             k2[fi].as_object_mut().unwrap().insert("data".into(), exec::bytes_json(&d));
-            let _ = exec::run_instance(base + 7, cfg, &k2, &opts);
-            let b = exec::run_instance(base + 1, cfg, calls, &opts);
-            if b.crashed || b.bytes != a.bytes || b.outcomes != a.outcomes {
-                worst = Some(b);
-                break;
-            }
-            if p + 1 == n {
-                worst = Some(b);
+            k2
+        };
+        let sibs: Vec<Vec<Value>> = (0..n).map(sib).collect();
+        let mut worst: Option<RunResult> = None;
+        'outer: for p1 in 0..n {
+            for p2 in 0..n {
+                if p1 == p2 {
+                    continue;
+                }
+                let _ = exec::run_instance(base + 7, cfg, &sibs[p1], &opts);
+                let _ = exec::run_instance(base + 7, cfg, &sibs[p2], &opts);
+                let b = exec::run_instance(base + 1, cfg, calls, &opts);
+                let differs = b.crashed || b.bytes != a.bytes || b.outcomes != a.outcomes;
+                if differs || worst.is_none() {
+                    worst = Some(b);
+                }
+                if differs {
+                    break 'outer;
+                }
             }
         }
-        cmp("same-thread-after-sibling", worst);
+        if n == 1 {
+            let _ = exec::run_instance(base + 7, cfg, &sibs[0], &opts);
+            worst = Some(exec::run_instance(base + 1, cfg, calls, &opts));
+        }
+        cmp("same-thread-after-siblings", worst);
     }
     // (i') the same behaviour again after the wall clock has moved on by more than a second
     if cfg.json.get("meta").is_some() {
